@@ -32,7 +32,8 @@ extern "C" void h_finder() {      // one Finder::Next() step from an arbitrary c
 
 extern "C" void h_if_case() {     // parseIfCase from an arbitrary cursor; the caller passes end_offset == length
     const C *b = vf_buf<C>(L);
-    unsigned off = vf_u32(); vf_assume(off <= L); unsigned in = off;
+    // the <else handler advances the cursor by 2 on seeing 'i' without a bounds check, so the cursor may be up to length + 1
+    unsigned off = vf_u32(); vf_assume(off <= L + 1u); unsigned in = off;
     SizeT co = 0, ce = 0;
     TC::parseIfCase(b, off, SizeT(L), co, ce);
     vf_assert(off >= in && off <= L + 1u, 1);
